@@ -444,6 +444,9 @@ package redis
 //@ func parseClusterNodes
 //@   prop C11 C14
 //@   flag bound-alloc
+//@   ensures @instances-non-nil result1 == nil ==> result0 != nil && forall k string :: has(result0, k) ==> result0[k] != nil
+//@   loop 0 invariant insts != nil && forall k string :: has(insts, k) ==> insts[k] != nil
+//@   loop 1 invariant insts != nil && forall k string :: has(insts, k) ==> insts[k] != nil
 
 //@ func parseClusterNodesSlot
 //@   prop C11
@@ -504,3 +507,19 @@ package redis
 
 //@ func itoa
 //@   prop C10 C11
+//@   modifies nothing
+
+//@ func (*encoder).encodeTextBytes
+//@   prop C10 C11
+//@   modifies nothing
+//@   requires e != nil && e.bw != nil
+
+//@ func (*encoder).encodeTextString
+//@   prop C10 C11
+//@   modifies nothing
+//@   requires e != nil && e.bw != nil
+
+//@ func (*encoder).writeCRLF
+//@   prop C10 C11
+//@   modifies nothing
+//@   requires e != nil && e.bw != nil
